@@ -87,7 +87,7 @@ def evict(prefix, suffix, keep=10, max_age_s=5400):
         if k >= keep or (k >= 1 and now - os.path.getmtime(d) > max_age_s):
             shutil.rmtree(d, ignore_errors=True)
 
-def cxx_build(extra='', tag='plain'):
+def cxx_build(extra='', tag='plain', cxx=None):
     """always rebuilt from /repo's current working tree (cached by content hash of headers + harness)"""
     key = tree_hash([os.path.join(REPO, 'include'), os.path.join(VERIF, 'harness', 'cxx')], ('.hpp', '.cpp', '.sh', '.h')) + '-' + tag
     out = os.path.join(BUILD, 'cxx-' + key)
@@ -96,7 +96,9 @@ def cxx_build(extra='', tag='plain'):
         os.utime(out)
         return exe
     evict('cxx-', '-' + tag)
-    rc, log = sh('%s %s %s' % (os.path.join(VERIF, 'harness', 'cxx', 'build.sh'), out, extra), timeout=900)
+    env = dict(os.environ)
+    if cxx: env['VERIF_CXX'] = cxx
+    rc, log = sh('%s %s %s' % (os.path.join(VERIF, 'harness', 'cxx', 'build.sh'), out, extra), timeout=900, env=env)
     if rc != 0 or not os.path.exists(exe):
         shutil.rmtree(out, ignore_errors=True)
         raise Stage('c++ build', log[-3000:])
